@@ -207,6 +207,7 @@ class SimBackend(TextQueryBackend):
     def convert_rule(self, rule: Any, output_format: str | None = None, callback: Any = None) -> Any:
         prev = self._cur_rule
         self._cur_rule = rule
+        self.fault_calls = {}  # "n-th call" counts per rule conversion (two rules may share a title)
         try:
             return super().convert_rule(rule, output_format, callback)
         finally:
